@@ -19,6 +19,7 @@ package haproxy
 import (
 	"fmt"
 	"reflect"
+	"sort"
 	"strings"
 
 	"github.com/jinzhu/copier"
@@ -112,7 +113,16 @@ func (c *config) SyncConfig() {
 		c.frontend.BindSocket = c.global.Bind.HTTPSBind
 		c.frontend.AcceptProxy = c.global.Bind.AcceptProxy
 	}
-	for _, host := range c.hosts.ItemsAdd() {
+	// ItemsAdd() is a map: visit the hosts in a stable order, the paths added
+	// below are appended to the backends in the order the hosts are visited
+	hostsAdd := c.hosts.ItemsAdd()
+	hostnames := make([]string, 0, len(hostsAdd))
+	for hostname := range hostsAdd {
+		hostnames = append(hostnames, hostname)
+	}
+	sort.Strings(hostnames)
+	for _, hostname := range hostnames {
+		host := hostsAdd[hostname]
 		if host.SSLPassthrough() {
 			// no action if ssl-passthrough
 			continue
